@@ -239,6 +239,8 @@ class AsyncClientWorld:
                     raise base.HandlerError('handler failure')
                 elif e[0] == 'yield':
                     await asyncio.sleep(0)
+                elif e[0] == 'sleep':
+                    await asyncio.sleep(e[1])
 
         async def on_connect():
             c = w.client
@@ -652,6 +654,8 @@ class SyncClientWorld:
                     raise base.HandlerError('handler failure')
                 elif e[0] == 'yield':
                     w.sched.point('yield')
+                elif e[0] == 'sleep':
+                    w.client.sleep(e[1])
 
         def on_connect():
             c = w.client
